@@ -267,12 +267,20 @@ def conc_proj(st, woken=None):
     seen so far, and the pending operation of every thread after the code without visible effect has run"""
     regs = [reg_proj(r, has_woken_bit() if woken is None else woken) for r in st["regs"]]
     subs, pend = {}, {}
-    ppc, pco, pdel = st["ppc"], st["pco"], st["pdel"]
-    pend["P"] = {"idle": "idle", "wake": "unlocked", "co": "lock", "tail": "lock"}[ppc]
+    pco, pdel = st["pco"], st["pdel"]
+
+    def pub_pend(pc_, note):
+        return {"idle": "idle", "wake": "notify" if note else "unlocked", "co": "lock", "tail": "lock"}[pc_]
+    pend["P"] = pub_pend(st["ppc"], st["pnote"])
+    if st.get("_twopub"):
+        pend["Q"] = pub_pend(st["p2pc"], st["p2note"])
     for i, pc in enumerate(st["pc"]):
         s = i + 1
         call = st["call"][i]
-        if call == "none":
+        tailp = st["tailp"][i]
+        if tailp:           # between the unlock of get_value and the return of next()
+            pd = "unlocked"
+        elif call == "none":
             pd = "idle"
         elif call == "poll":
             pd = "lock"
@@ -285,67 +293,202 @@ def conc_proj(st, woken=None):
             continue
         recv = st["recv"][i]
         eos = pc == "eos"
-        if pdel == s:   # get_value done by the publisher thread, the coroutine has not been let run on yet
-            recv = recv[:-1] if pc == "idle" else recv
+        res = st["res"][i]
+        if pdel == s or tailp:   # get_value done, its result has not reached the caller yet
+            if pc == "idle" and res != "notready":
+                recv = recv[:-1]
             eos = False
-        subs[str(s)] = {"hnd": st["hnd"][i], "mode": st["mode"][i], "recv": recv, "res": st["res"][i], "eos": eos}
-    return {"pos": st["pos"], "q": st["q"], "closed": st["closed"], "pubAlive": st["pubAlive"],
+            res = "none"
+        subs[str(s)] = {"hnd": st["hnd"][i], "mode": st["mode"][i], "recv": recv, "res": res, "eos": eos}
+    return {"pos": st["pos"], "q": st["q"], "closed": st["closed"], "pubAlive": st["pubAlive"], "stale": 0,
             "nextFree": st["nextFree"], "regs": regs, "subs": subs, "pend": pend}
 
 
-def conc_consts(nsubs, mn, mx, modes, cstyles, pub, batch, join, kick, at=(), copybusy=True, copywoken=False, founders=None):
+def conc_consts(nsubs, mn, mx, modes, cstyles, pub, batch, join, kick, at=(), copybusy=True, copywoken=False, founders=None,
+                twopub=False):
     c = consts(nsubs, mn, mx, modes, styles='{"split"}', pub=pub, batch=batch, join=join, kick=kick, at=list(at),
                copybusy=copybusy, serial=False, copywoken=copywoken, founders=founders)
     c["CStyles"] = tla_set(cstyles)
+    c["TwoPub"] = "TRUE" if twopub else "FALSE"
     return c
 
 
-def conc_replay(ctx, tag="conc", max_paths_quick=1200, max_paths_thorough=9000):
-    """publisher thread against subscriber threads on REAL threads under the controlled scheduler at lock grain (the
-    queue's std::mutex is virtual): every critical section is one step, the wake-up loop after the unlock a step of its
-    own; TLC checks the C16 invariants on the thread-structured model, every step of the replay compares the queue's
-    internal state, every thread's pending operation and what every subscriber received, and every step that is not a
-    critical section must leave the mutex-guarded state untouched.  Also used by C03 (lock discipline).
+def _raw(text, var):
+    """value text of a variable in TLC's rendering of a state"""
+    i = text.find("/\\ %s = " % var)
+    if i < 0:
+        return ""
+    j = text.find("\n", i)
+    return text[i + len(var) + 6: j if j >= 0 else len(text)]
+
+
+def conc_targets(g, per_target=12):
+    """paths through the interleavings the threaded replay exists for, added to the (capped) edge cover:
+    T1  a publish that trims the window while a subscriber thread stands between the unlock of get_value and the
+        return of next() and the value it fetched is among the trimmed ones (a copy made after the unlock reads a
+        destroyed element);
+    T2  a critical section of one publishing thread while the other one is in its wake-up loop with waiters left
+        (before its first resume / between two resumes)."""
+    out = {n: [(l, d) for (l, d) in es if d != n] for n, es in g.edges.items()}
+    parent = {}
+    dq = deque()
+    for i in g.init:
+        parent[i] = None
+        dq.append(i)
+    while dq:
+        n = dq.popleft()
+        for idx, (l, d) in enumerate(out[n]):
+            if d not in parent:
+                parent[d] = (n, idx)
+                dq.append(d)
+    rev = {}
+    for n, es in out.items():
+        for idx, (l, d) in enumerate(es):
+            rev.setdefault(d, []).append((n, idx))
+    term_next, seen = {}, set()
+    for n in out:
+        if not out[n]:
+            seen.add(n)
+            dq.append(n)
+    while dq:
+        n = dq.popleft()
+        for (pn, idx) in rev.get(n, []):
+            if pn not in seen:
+                seen.add(pn)
+                term_next[pn] = idx
+                dq.append(pn)
+    found = {"T1": [], "T2a": [], "T2b": [], "T2c": []}
+    for n, es in out.items():
+        txt = g.state_text[n]
+        tail = "TRUE" in _raw(txt, "tailp")
+        pwake = _raw(txt, "ppc") == '"wake"' and _raw(txt, "wakeq") != "<<>>"
+        qwake = _raw(txt, "p2pc") == '"wake"' and _raw(txt, "wq2") != "<<>>"
+        if not (tail or pwake or qwake):
+            continue
+        for idx, (l, d) in enumerate(es):
+            if tail and (l.startswith("PPush") or l.startswith("P2Push")) and len(found["T1"]) < 4 * per_target:
+                s0, s1 = g.state(n), g.state(d)
+                oldest = s1["pos"] - len(s1["q"])
+                if any(t and r and r[-1] < oldest for t, r in zip(s0["tailp"], s0["recv"])):
+                    found["T1"].append((n, idx))
+            if pwake and l.startswith("P2") and l[:6] in ("P2Push", "P2Clos"):
+                key = "T2b" if _raw(txt, "pnote") == "TRUE" else "T2a"
+                if len(found[key]) < per_target:
+                    found[key].append((n, idx))
+            if qwake and (l.startswith("PPush") or l.startswith("PClose")) and len(found["T2c"]) < per_target:
+                found["T2c"].append((n, idx))
+    paths = []
+    for key in sorted(found):
+        for (n, idx) in found[key][:per_target]:
+            pre = []
+            x = n
+            while parent[x] is not None:
+                pn, pi = parent[x]
+                pre.append(out[pn][pi])
+                x = pn
+            pre.reverse()
+            steps = pre + [out[n][idx]]
+            cur = out[n][idx][1]
+            while out[cur] and cur in term_next and len(steps) < 300:
+                e = out[cur][term_next[cur]]
+                steps.append(e)
+                cur = e[1]
+            paths.append((x, steps))
+    return paths, {k: len(v) for k, v in found.items()}
+
+
+@contextlib.contextmanager
+def conc_cover(stats):
+    """edge cover (capped) plus the targeted paths"""
+    old = vlib.cover_paths
+
+    def cover(g, rng, max_paths=None, **kw):
+        paths, covered, total = fast_cover_paths(g, rng, max_paths=max_paths, **kw)
+        extra, n = conc_targets(g)
+        stats.update(n)
+        return extra + paths, covered, total
+    vlib.cover_paths = cover
+    try:
+        yield
+    finally:
+        vlib.cover_paths = old
+
+
+def conc_replay(ctx, tag="conc", max_paths_quick=700, max_paths_thorough=8000):
+    """publishing threads against subscriber threads on REAL threads under the controlled scheduler (the queue's
+    std::mutex is virtual): every critical section is one step; the wake-up loop outside the lock is one step per
+    resumed waiter; what follows the unlock of get_value up to the return of next() is a step of its own.  TLC checks
+    the C16 invariants on the thread-structured model; every step of the replay compares the queue's internal state,
+    every thread's pending operation and what every subscriber received; every step that is not a critical section
+    must leave the mutex-guarded state untouched; the published items poison themselves when destroyed, so a value
+    copied out of the window after the unlock is seen.  Also used by C03 (lock discipline).
     A step of the replay costs several thread hand-overs (~0.3 ms), so the path sets are capped in both tiers: TLC
-    explores the models completely, the replay covers the edges reached by max_paths_* edge-seeking paths."""
+    explores the models completely, the replay covers the edges reached by max_paths_* edge-seeking paths plus paths
+    aimed at the interleavings the replay exists for (conc_targets)."""
     rpc = vlib.compile_harness(vlib.VERIF + "/harness/publisher_conc_replay.cpp", "publisher_conc_replay",
                                extra_flags=["-rdynamic"], sanitize=False)
+    # (name, constants, cfg)
+    CFG, CFG2 = "PublisherConc.cfg", "PublisherConc_twopub.cfg"
     if ctx.quick:
-        configs = [("a", conc_consts(2, 1, 2, ["all"], ["block", "poll", "coro"], 1, 1, 2, 0)),
-                   ("b", conc_consts(1, 1, U, ["all", "recent"], ["block", "poll", "coro"], 2, 2, 2, 1))]
+        configs = [("a", conc_consts(2, 1, 2, ["all"], ["block", "poll", "coro"], 1, 1, 2, 0), CFG),
+                   # finite window, a subscriber exactly that far behind: the retained element is trimmed under a reader
+                   ("r", conc_consts(1, 1, 1, ["all", "recent"], ["block", "poll", "coro"], 2, 2, 2, 1), CFG),
+                   # two publishing threads against two blocked subscriber threads
+                   ("p", conc_consts(2, 1, 2, ["all"], ["block"], 2, 1, 2, 0, copybusy=False, twopub=True), CFG2)]
     else:
-        configs = [("a", conc_consts(2, 1, 2, ["all"], ["block", "poll", "coro"], 2, 1, 2, 0)),
-                   ("b", conc_consts(2, 1, 1, ["recent"], ["block", "coro"], 2, 2, 2, 1, copybusy=False)),
-                   ("c", conc_consts(1, 2, 2, ["behind"], ["block", "poll", "coro"], 4, 3, 2, 1)),
-                   ("d", conc_consts(1, 1, U, ["all", "recent"], ["block", "poll", "coro"], 3, 2, 2, 1)),
-                   ("e", conc_consts(3, 1, 2, ["all"], ["block", "coro"], 1, 1, 3, 0, copybusy=False))]
+        configs = [("a", conc_consts(2, 1, 2, ["all"], ["block", "poll", "coro"], 2, 1, 2, 0), CFG),
+                   ("b", conc_consts(2, 1, 1, ["recent"], ["block", "coro"], 2, 2, 2, 1, copybusy=False), CFG),
+                   ("c", conc_consts(1, 2, 2, ["behind"], ["block", "poll", "coro"], 4, 3, 2, 1), CFG),
+                   ("r", conc_consts(1, 1, 1, ["all", "recent"], ["block", "poll", "coro"], 3, 2, 2, 1), CFG),
+                   ("e", conc_consts(3, 1, 2, ["all"], ["block", "coro"], 1, 1, 3, 0, copybusy=False), CFG),
+                   ("p", conc_consts(2, 1, 2, ["all"], ["block"], 3, 2, 2, 0, copybusy=False, twopub=True), CFG2),
+                   ("q", conc_consts(2, 1, 1, ["all", "recent"], ["block", "poll"], 2, 1, 2, 1, copybusy=False, twopub=True), CFG)]
     # a thread copies a subscriber in the window between the publisher's critical section that collected its awaiter and
     # the original's get_value (own key: remainder of the copy-of-parked defect)
     configs.append(("w", conc_consts(2, 1, U, ["all"], ["block", "coro"], 1 if ctx.quick else 2, 1, 2, 0, copywoken=True,
-                                     founders=[1])))
-    must = ["TJoinRecent", "TLeave", "TReady", "TSubscribe", "TFetch", "PPush", "PClose", "PWake", "PFetch", "PTail"]
-    for (name, c) in configs:
+                                     founders=[1]), CFG))
+    for (name, c, cfg) in configs:
         n = c["NSubs"]
-        threads = ["P"] + [str(i) for i in range(1, n + 1)]
+        two = c["TwoPub"] == "TRUE"
+        threads = ["P"] + (["Q"] if two else []) + [str(i) for i in range(1, n + 1)]
 
         def hdr(k, st0, c=c, threads=threads):
             return {"min": c["MinLen"], "max": c["MaxLen"], "threads": threads}
-        m = list(must)
+
+        def cproj(st, two=two):
+            st = dict(st)
+            st["_twopub"] = two
+            return conc_proj(st)
+        m = ["TJoinRecent", "TReady", "TSubscribe", "TFetch", "TTail", "PPush", "PClose", "PWake", "PTail"]
+        if cfg == CFG:
+            m.append("TLeave")
+        if "coro" in c["CStyles"]:
+            m.append("PFetch")
         if "poll" in c["CStyles"]:
             m += ["TPollReady", "TPollFetch"]
         if c["MaxKick"]:
             m.append("PKick")
-        if n > 1:
+        if n > 1 and c["CopyBusy"] == "TRUE":
             m.append("TJoinCopy")
+        if two:
+            m += ["P2Push", "P2Close", "P2Wake", "P2Tail"]
         window = name == "w"
-        with fast_cover():
-            graph_replay(ctx, "Publisher", "PublisherConc", "PublisherConc.cfg", "%s_%s" % (tag, name), rpc,
-                         conc_proj,
-                         header_fn=hdr, must_take=m, constants=c, max_paths=max_paths_quick if ctx.quick else max_paths_thorough,
-                         tlc_kw={"workers": 4}, replay_timeout=180 if ctx.quick else 1800,
-                         key_fn=(lambda sid, line, txt: "publisher_copy_of_woken_subscriber") if window else None)
-    ctx.assume("publisher on real threads: lock grain (std::mutex virtual, atomic operations are not scheduling points; the "
-               "awaiter/sync_awaiter protocol itself is decided by C01/C02); one publisher thread, one thread per subscriber")
+        stats = {}
+        with conc_cover(stats):
+            res, g = graph_replay(ctx, "Publisher", "PublisherConc", cfg, "%s_%s" % (tag, name), rpc, cproj,
+                                  header_fn=hdr, must_take=m, constants=c,
+                                  max_paths=max_paths_quick if ctx.quick else max_paths_thorough,
+                                  tlc_kw={"workers": 4}, replay_timeout=180 if ctx.quick else 1800,
+                                  key_fn=(lambda sid, line, txt: "publisher_copy_of_woken_subscriber") if window else None)
+        res.model["targeted_paths"] = dict(stats)
+        if name == "r" and not stats.get("T1"):
+            raise MachineryError("threaded replay %s: no path trims the window under a reader (vacuous)" % name)
+        if name == "p" and not (stats.get("T2a") and stats.get("T2b")):
+            raise MachineryError("threaded replay %s: no critical section of the second publisher inside the first one's loop" % name)
+    ctx.assume("publisher on real threads: scheduling points are lock operations, the code after each unlock where it matters "
+               "(wake-up loop per waiter, return path of next()), controlled waits and sync_awaiter's notify; other atomic "
+               "operations are not scheduling points (the awaiter/sync_awaiter protocol itself is decided by C01/C02); at most two "
+               "publishing threads, one thread per subscriber; with two publishing threads only blocking/polled next()")
 
 
 def run(ctx):
